@@ -13,7 +13,8 @@ theorem write_needs_kinds (prog : Arg) (toks : List Tok) (s : Nat)
     parseArgv (prog :: toks.map Tok.render ++ [writeSpelling s]) = .error .writeNeedsParams := by
   sorry
 
-theorem tagged_selects_exactly (cs : List TestClass) (hac : Acyclic cs) (i : Nat) (hi : i < cs.length)
+theorem tagged_selects_exactly (cs : List TestClass) (hac : Acyclic cs)
+    (hd : ∀ c ∈ cs, (c.own.map (·.1)).Nodup) (i : Nat) (hi : i < cs.length)
     (m : Arg) : m ∈ testNames cs i true ↔ CarriesTag cs i m := by
   sorry
 
@@ -26,7 +27,8 @@ theorem selected_once (cs : List TestClass) (hac : Acyclic cs)
     (testNames cs i tagged).Nodup := by
   sorry
 
-theorem check_lists_exactly (cs : List TestClass) (hac : Acyclic cs) (n : Arg) :
+theorem check_lists_exactly (cs : List TestClass) (hac : Acyclic cs)
+    (hd : ∀ c ∈ cs, (c.own.map (·.1)).Nodup) (n : Arg) :
     n ∈ listedClasses cs true ↔
       ∃ i c, cs[i]? = some c ∧ c.name = n ∧ ∃ m, CarriesTag cs i m := by
   sorry
